@@ -47,6 +47,10 @@ func (e *miniEval) Int(v ssa.Value) (int64, bool) {
 			return a - b, true
 		case token.MUL:
 			return a * b, true
+		case token.QUO:
+			if b != 0 {
+				return a / b, true
+			}
 		}
 	case *ssa.Phi:
 		k, ok := e.phiEdge(x)
